@@ -113,45 +113,29 @@ func (s *Modifier) ModifyResponse(res *http.Response) error {
 	contentType := mime.TypeByExtension(filepath.Ext(fpth))
 	res.Header.Set("Content-Type", contentType)
 
-	// If no range request header is present, return the file as the response body.
-	if res.Request.Header.Get("Range") == "" {
+	// If no range request header is present, or it uses a unit other than
+	// bytes, return the file as the response body.
+	ranges, err := parseRange(res.Request.Header.Get("Range"), info.Size())
+	if err != nil {
+		// Malformed header or no satisfiable range.
+		f.Close()
+
+		res.StatusCode = http.StatusRequestedRangeNotSatisfiable
+		res.Header.Set("Content-Range", fmt.Sprintf("bytes */%d", info.Size()))
+		res.ContentLength = 0
+		res.Body = ioutil.NopCloser(bytes.NewReader(nil))
+
+		return nil
+	}
+	if ranges == nil {
 		res.ContentLength = info.Size()
 		res.Body = f
 
 		return nil
 	}
 
-	rh := res.Request.Header.Get("Range")
-	rh = strings.ToLower(rh)
-	sranges := strings.Split(strings.TrimLeft(rh, "bytes="), ",")
-	var ranges [][]int
-	for _, rng := range sranges {
-		if strings.HasSuffix(rng, "-") {
-			rng = fmt.Sprintf("%s%d", rng, info.Size()-1)
-		}
-
-		rs := strings.Split(rng, "-")
-		if len(rs) != 2 {
-			res.StatusCode = http.StatusRequestedRangeNotSatisfiable
-			return nil
-		}
-		start, err := strconv.Atoi(strings.TrimSpace(rs[0]))
-		if err != nil {
-			return err
-		}
-
-		end, err := strconv.Atoi(strings.TrimSpace(rs[1]))
-		if err != nil {
-			return err
-		}
-
-		if start > end {
-			res.StatusCode = http.StatusRequestedRangeNotSatisfiable
-			return nil
-		}
-
-		ranges = append(ranges, []int{start, end})
-	}
+	// The requested ranges are read into memory below.
+	defer f.Close()
 
 	// Range request.
 	res.StatusCode = http.StatusPartialContent
@@ -160,16 +144,12 @@ func (s *Modifier) ModifyResponse(res *http.Response) error {
 	if len(ranges) == 1 {
 		start := ranges[0][0]
 		end := ranges[0][1]
-		length := end - start + 1
-		seg := make([]byte, length)
-
-		switch n, err := f.ReadAt(seg, int64(start)); err {
-		case nil, io.EOF:
-			res.ContentLength = int64(n)
-		default:
+		seg, err := readRange(f, start, end)
+		if err != nil {
 			return err
 		}
 
+		res.ContentLength = int64(len(seg))
 		res.Body = ioutil.NopCloser(bytes.NewReader(seg))
 		res.Header.Set("Content-Range", fmt.Sprintf("bytes %d-%d/%d", start, end, info.Size()))
 
@@ -186,13 +166,8 @@ func (s *Modifier) ModifyResponse(res *http.Response) error {
 		mimeh.Set("Content-Type", contentType)
 		mimeh.Set("Content-Range", fmt.Sprintf("bytes %d-%d/%d", start, end, info.Size()))
 
-		length := end - start + 1
-		seg := make([]byte, length)
-
-		switch n, err := f.ReadAt(seg, int64(start)); err {
-		case nil, io.EOF:
-			res.ContentLength = int64(n)
-		default:
+		seg, err := readRange(f, start, end)
+		if err != nil {
 			return err
 		}
 
@@ -212,6 +187,83 @@ func (s *Modifier) ModifyResponse(res *http.Response) error {
 	res.Header.Set("Content-Type", fmt.Sprintf("multipart/byteranges; boundary=%s", mpw.Boundary()))
 
 	return nil
+}
+
+// readRange reads the bytes start through end, inclusive, of f.
+func readRange(f *os.File, start, end int64) ([]byte, error) {
+	seg := make([]byte, end-start+1)
+
+	n, err := f.ReadAt(seg, start)
+	if err != nil && err != io.EOF {
+		return nil, err
+	}
+
+	return seg[:n], nil
+}
+
+// parseRange parses a Range header for a file of the given size as described in
+// RFC 7233. It returns the satisfiable ranges as inclusive [start, end] pairs
+// with end clamped to the last byte of the file. It returns nil ranges when
+// the header is absent or uses a unit other than bytes, and an error when the
+// header is malformed or none of its ranges can be satisfied.
+func parseRange(rh string, size int64) ([][]int64, error) {
+	const unit = "bytes="
+	if len(rh) < len(unit) || !strings.EqualFold(rh[:len(unit)], unit) {
+		return nil, nil
+	}
+
+	var ranges [][]int64
+	for _, rng := range strings.Split(rh[len(unit):], ",") {
+		rng = strings.TrimSpace(rng)
+		if rng == "" {
+			continue
+		}
+
+		i := strings.Index(rng, "-")
+		if i < 0 {
+			return nil, fmt.Errorf("static: invalid range %q", rng)
+		}
+		first, last := strings.TrimSpace(rng[:i]), strings.TrimSpace(rng[i+1:])
+
+		if first == "" {
+			// Suffix range: the last n bytes of the file.
+			n, err := strconv.ParseUint(last, 10, 63)
+			if err != nil {
+				return nil, fmt.Errorf("static: invalid range %q", rng)
+			}
+			if n > uint64(size) {
+				n = uint64(size)
+			}
+			if n > 0 {
+				ranges = append(ranges, []int64{size - int64(n), size - 1})
+			}
+			continue
+		}
+
+		start, err := strconv.ParseUint(first, 10, 63)
+		if err != nil {
+			return nil, fmt.Errorf("static: invalid range %q", rng)
+		}
+		end := uint64(size) - 1
+		if last != "" {
+			if end, err = strconv.ParseUint(last, 10, 63); err != nil || start > end {
+				return nil, fmt.Errorf("static: invalid range %q", rng)
+			}
+		}
+		if start >= uint64(size) {
+			// Not satisfiable, skip.
+			continue
+		}
+		if end >= uint64(size) {
+			end = uint64(size) - 1
+		}
+		ranges = append(ranges, []int64{int64(start), int64(end)})
+	}
+
+	if len(ranges) == 0 {
+		return nil, fmt.Errorf("static: no satisfiable range in %q", rh)
+	}
+	return ranges, nil
 }
 
 // SetExplicitPathMappings sets an optional mapping of request paths to local
